@@ -59,10 +59,10 @@ TIERS = {
 }
 FLOORS = {"quick": {"distinct_nontrivial": 20, "requests_observed": 5000, "yields_injected": 2000,
                     "offsets_where_A_was_held": 40, "scenarios_where_B_ran_inside_gap": 10,
-                    "distinct_interleavings": 10},
+                    "distinct_interleavings": 10, "long_run_requests": 10001},
           "thorough": {"distinct_nontrivial": 300, "requests_observed": 200000, "yields_injected": 100000,
                        "offsets_where_A_was_held": 1500, "scenarios_where_B_ran_inside_gap": 400,
-                       "distinct_interleavings": 400}}
+                       "distinct_interleavings": 400, "long_run_requests": 100001}}
 LEVEL_TEXT = ("Runtime monitoring of real threads: an offline checker compares the recorded request history with a "
               "sequential counter model after (1) stress rounds with injected yields inside the id generator and (2) "
               "a systematic sweep that forces one pre-emption at every bytecode offset of the generator. The evidence "
@@ -406,24 +406,31 @@ def stress_round(ctx, seed, interleavings, case_no):
 
 
 def long_run(ctx, n_requests):
-    """more requests on one underlying connection than any fixed-width field of the id can count"""
+    """more AUTOMATICALLY NUMBERED requests on one underlying connection than any fixed-width field of the id
+    can count (requests with the caller's own ids do not count)"""
     op, conns = mk_conns()
     own = []
+    numbered = 0
+    k = 0
     try:
-        for k in range(n_requests):
+        while numbered < n_requests:
             c = conns[k % len(conns)]
-            if k % 1000 == 7 and k % len(conns) != 4:
+            via_adapter = k % len(conns) == 4
+            if via_adapter and k % 50:
+                c = conns[0]          # the id-supplying connection only now and then
+                via_adapter = False
+            if k % 1000 == 7 and not via_adapter:
                 own.append(f"own-long-{k}")
                 c.get("/l", headers={'X-Request-ID': own[-1]})
-            elif k % 1000 == 7:
-                c.get("/l")
             else:
                 c.get("/l")
+                numbered += 0 if via_adapter else 1
+            k += 1
     except Exception as err:
         ctx.violation("request-raises-under-concurrency", {"errors": [repr(err)]},
                       {"workload": "long", "requests": n_requests})
         return
-    ctx.count("long_run_requests", n_requests)
+    ctx.count("long_run_requests", numbered)
     judge_history(ctx, op.reqs, None, own, {"workload": "long", "requests": n_requests}, adapter_ids=op.adapter_ids)
 
 
